@@ -134,7 +134,7 @@ pub fn check(t: &Trace<'_>, out: &mut CaseOut) -> bool {
         let Some((off, why)) = &c.out.error else { continue };
         let cop = &t.log.ops[ci.connect_op.unwrap()];
         let owed = cop.snap_after.as_ref().is_some_and(|s| !s.tx.retained.is_empty());
-        let abandoned = t.log.ops.iter().any(|o| o.conn == Some(ci.idx) && matches!(o.outcome, crate::exec::Outcome::Cancelled | crate::exec::Outcome::Watchdog) && o.out_after > o.out_before && o.out_before <= *off);
+        let abandoned = t.log.ops.iter().any(|o| o.conn == Some(ci.idx) && left_bytes_behind(t.log, o) && o.out_before <= *off);
         if owed && !abandoned {
             out.violations.push(viol("C17", "C17/retransmission-undecodable", format!("resumed conn {} started with retained packets; its outbound stream cannot be decoded from offset {}: {}", ci.idx, off, why)));
         }
